@@ -21,12 +21,13 @@ namespace
     struct state
     {
         bool trace = false;
+        bool compact = false;     // states without the operand values: frame ids, bases and the stack height only
         bool sched = false;
         std::map<const sqf::runtime::context*, int> ctx_ids;
         std::map<int, std::string> ctx_names;
         std::string pending_op;
         long long nevents = 0;
-        long long max_events = 200000;
+        long long max_events = 200000;     // (raised for compact traces)
         long long instr = 0;
         int next_ctx_id = 0;
     };
@@ -56,8 +57,18 @@ namespace
         auto sp = rt.context_active_as_shared();
         if (!sp) { return; }
         auto& ctx = *sp;
-        J e = ev("S");
+        J e = ev(g->compact ? "SC" : "S");
         e.set("k", kind).set("ctx", ctx_id(rt)).set("op", g->pending_op).set("arg", (long long)arg);
+        if (g->compact)
+        {
+            J cf = J::arr(), cb = J::arr();
+            std::vector<sqf::runtime::frame*> fr;
+            for (auto it = ctx.frames_rbegin(); it != ctx.frames_rend(); ++it) { fr.push_back(&*it); }
+            for (auto it = fr.rbegin(); it != fr.rend(); ++it) { cf.push((long long)(*it)->verif_id); cb.push((long long)(*it)->value_stack_pos()); }
+            e.set("fids", cf).set("bases", cb).set("n", (long long)ctx.values_size());
+            emit(e);
+            return;
+        }
         J fids = J::arr(), bases = J::arr(), pos = J::arr(), slots = J::arr();
         std::vector<sqf::runtime::frame*> frames;
         for (auto it = ctx.frames_rbegin(); it != ctx.frames_rend(); ++it) { frames.push_back(&*it); }
@@ -132,6 +143,8 @@ static void cmd_run(const J& c)
     state st;
     g = &st;
     st.trace = c.boolean("trace", false);
+    st.compact = c.boolean("compact", false);
+    if (st.compact) { st.max_events = 2000000; }
     st.sched = c.boolean("sched", false);
     sqf::runtime::runtime::runtime_conf conf;
     long long slice = 0;
